@@ -37,12 +37,34 @@ Theorem C18_accept_now_partial : forall verify layers now a, check_now verify la
 Proof. exact accept_now_implies. Qed.
 Print Assumptions C18_accept_now_partial.
 
-(* what `constraints admit` means: no constraints, or one alternative all of whose header = value pairs hold *)
+(* what `constraints admit` means: no constraints header at all, or one LISTED constraint all of whose header = value
+   pairs hold *)
 Theorem C18_can_sign_spec : forall k a, can_sign k a = true ->
-  k_constraints k = [] \/
-  exists c, In c (k_constraints k) /\ forall h v, In (h, v) c -> assoc h (a_headers a) = Some v.
+  k_constraints k = None \/
+  exists cs c, k_constraints k = Some cs /\ In c cs /\ forall h v, In (h, v) c -> assoc h (a_headers a) = Some v.
 Proof. exact can_sign_spec. Qed.
 Print Assumptions C18_can_sign_spec.
+
+(* A key WITH a constraints header can only sign what one of its listed constraints matches: that constraint's type is
+   the assertion's own type and its header matchers hold. For EVERY constraints list - entries naming assertion types this
+   snapd does not know are compiled like any other (they match nothing it can hold) and are never dropped; a header whose
+   entries all name other types, or that has no usable entry, lets the key sign nothing: that is not the unconstrained case
+   (only a key WITHOUT the header is unconstrained). *)
+Theorem C18_constrained_key_needs_listed_type : forall k a cs, k_constraints k = Some cs -> can_sign k a = true ->
+  exists c, In c cs /\ (forall h v, In (h, v) c -> assoc h (a_headers a) = Some v) /\
+            (forall t, assoc (bs "type") c = Some t -> assoc (bs "type") (a_headers a) = Some t).
+Proof. exact constrained_key_needs_listed_type. Qed.
+Print Assumptions C18_constrained_key_needs_listed_type.
+
+Theorem C18_foreign_type_constraints_sign_nothing : forall k a cs t,
+  k_constraints k = Some cs -> assoc (bs "type") (a_headers a) = Some t ->
+  (forall c, In c cs -> exists t', assoc (bs "type") c = Some t' /\ t' <> t) -> can_sign k a = false.
+Proof. exact foreign_type_constraints_sign_nothing. Qed.
+Print Assumptions C18_foreign_type_constraints_sign_nothing.
+
+Theorem C18_empty_constraints_sign_nothing : forall k a, k_constraints k = Some [] -> can_sign k a = false.
+Proof. exact empty_constraints_sign_nothing. Qed.
+Print Assumptions C18_empty_constraints_sign_nothing.
 
 (* the validity window: since inclusive, until exclusive; no until = never expires *)
 Theorem C18_validity_window : forall k t,
@@ -133,7 +155,7 @@ Theorem C18_decoded_signature_mutation_refuted : exists verify layers now a a',
   a_sig a' <> a_sig a /\ a_content a' = a_content a /\
   check_now verify layers now a = true /\ check_now verify layers now a' = true.
 Proof.
-  exists (ideal_verify (bs "KEYID", bs "content", bs "core")), [[]; [mkKey (bs "KEYID") (bs "brand") 100 (Some 200) []]], 150,
+  exists (ideal_verify (bs "KEYID", bs "content", bs "core")), [[]; [mkKey (bs "KEYID") (bs "brand") 100 (Some 200) None]], 150,
     (mkA true (bs "brand") (bs "KEYID") None [] (bs "content") (bs "sig") (bs "core")),
     (mkA true (bs "brand") (bs "KEYID") None [] (bs "content") (bs "sig+unhashed") (bs "core")).
   repeat split. discriminate.
@@ -152,7 +174,7 @@ Proof. exact ideal_verify_ideal. Qed.
 Print Assumptions C18_ideal_instance.
 
 (* ------------------------------------------------------------------ non-vacuity *)
-Definition ex_key := mkKey (bs "KEYID") (bs "brand") 100 (Some 200) [[(bs "type", bs "model"); (bs "model", bs "m1")]].
+Definition ex_key := mkKey (bs "KEYID") (bs "brand") 100 (Some 200) (Some [[(bs "type", bs "model"); (bs "model", bs "m1")]]).
 Definition ex_a := mkA true (bs "brand") (bs "KEYID") (Some 150) [(bs "type", bs "model"); (bs "model", bs "m1")]
                        (bs "content") (bs "sig") (bs "sig").
 Definition ex_signed := (bs "KEYID", bs "content", bs "sig").
@@ -164,9 +186,15 @@ Example C18_ex_mutated : check_now (ideal_verify ex_signed) [[]; [ex_key]] 199
   (mkA true (bs "brand") (bs "KEYID") (Some 150) [(bs "type", bs "model"); (bs "model", bs "m1")] (bs "contenT") (bs "sig") (bs "sig")) = false.
 Proof. reflexivity. Qed.
 (* a newer, expired revision of the key in the trusted layer wins over the older valid revision still stored *)
-Definition ex_key_expired := mkKey (bs "KEYID") (bs "brand") 100 (Some 120) [].
+Definition ex_key_expired := mkKey (bs "KEYID") (bs "brand") 100 (Some 120) None.
 Example C18_ex_layers : check_now (ideal_verify ex_signed) [[ex_key_expired]; []; [ex_key]] 199 ex_a = false /\
                         check_now (ideal_verify ex_signed) [[]; []; [ex_key]] 199 ex_a = true.
+Proof. split; reflexivity. Qed.
+(* a key whose only constraint names a type unknown to this snapd signs nothing; without the header it signs *)
+Definition ex_key_future := mkKey (bs "KEYID") (bs "brand") 100 (Some 200) (Some [[(bs "type", bs "future-assertion-type")]]).
+Definition ex_key_free := mkKey (bs "KEYID") (bs "brand") 100 (Some 200) None.
+Example C18_ex_unknown_type : check_now (ideal_verify ex_signed) [[]; [ex_key_future]] 199 ex_a = false /\
+                              check_now (ideal_verify ex_signed) [[]; [ex_key_free]] 199 ex_a = true.
 Proof. split; reflexivity. Qed.
 Example C18_ex_constraint : check_now (ideal_verify ex_signed) [[]; [ex_key]] 199
   (mkA true (bs "brand") (bs "KEYID") (Some 150) [(bs "type", bs "model"); (bs "model", bs "m2")] (bs "content") (bs "sig") (bs "sig")) = false.
